@@ -58,6 +58,9 @@ func NewRun(prop, tier, level string) *Run {
 	}
 	r := &Run{Prop: prop, Tier: tier, Seed: seed, Level: level, start: time.Now(), Cov: map[string]interface{}{},
 		known: map[string]int{}, knownWhat: map[string]string{}, seenSig: map[string]bool{}, MaxViol: 5}
+	if s := os.Getenv("VERIF_MAXVIOL"); s != "" {
+		fmt.Sscan(s, &r.MaxViol)
+	}
 	r.findings = LoadFindings()
 	return r
 }
